@@ -52,7 +52,15 @@ func (s *Sched) Yield(label string) {
 // Run executes the bodies to completion under the schedule chosen by m. It returns the panic
 // values of the threads (nil when a thread returned normally).
 func Run(m *engine.MC, horizon int, install func(yield func(label string)), bodies []func()) (*Sched, []any) {
+	return RunPrepared(m, horizon, install, bodies, nil)
+}
+
+// RunPrepared is Run with a callback that receives the scheduler before any thread starts.
+func RunPrepared(m *engine.MC, horizon int, install func(yield func(label string)), bodies []func(), prepared func(*Sched)) (*Sched, []any) {
 	s := &Sched{m: m, events: make(chan event), Horizon: horizon, current: -1}
+	if prepared != nil {
+		prepared(s)
+	}
 	panics := make([]any, len(bodies))
 	for i := range bodies {
 		t := &thread{id: i, wake: make(chan struct{})}
